@@ -69,6 +69,7 @@ CLAIMED = {
          "The strict algorithms are instantiated at a second array backend whose four open choices follow a choice tape; for every input of the universes every tape with <=1 (quick) / <=2 deviations is executed and the result compared with the Vec backend's (isomorphic diagrams, identical predicates, Option-ness and evaluation outputs, layer validity); the backend's own conformance to the array contract is established by running the C07 oracle under every alternative of every choice point.",
          "deviation bound 1-2, <=4096 executions per input; only Vec and adversarial variants of it", "DESIGN.md §3.5, §4 C20"),
 }
+STRUCT = {"C01","C02","C03","C04","C05","C06","C07","C08","C10","C11","C12","C13","C14","C15","C16","C17","C18","C19","C20"}
 NOT_YET = "check not built yet in this revision of /verif (work in progress; see DESIGN.md §4)"
 
 checks = []
@@ -77,6 +78,9 @@ for p in props:
     pid = p['id']
     if pid in CLAIMED:
         tech, text, note, ref = CLAIMED[pid]
+        if pid in STRUCT:
+            tech += "; plus completely enumerated structured families of larger inputs (sizes, depths, multiplicities, magnitudes near powers of two)"
+            text += " In addition to the exhaustive small universes, parametrised families of larger inputs (DESIGN.md §10.6) are enumerated completely for every size parameter up to a stated bound, because realistic faults exist that no input below the small-scope bound can show."
         checks.append({
             "property_id": pid,
             "quick_cmd": f"./check {pid} quick",
